@@ -11,6 +11,20 @@ EQ = os.path.join(ROOT, "equivalent")
 REPO = "/repo"
 
 
+def _touch_changed(repo, files=None):
+    """cargo decides by mtime: make sure files changed by an apply / revert are seen as newer than the last build."""
+    import time
+    if files is None:
+        out = subprocess.run(["git", "-C", repo, "diff", "--name-only"], capture_output=True, text=True).stdout
+        files = [f for f in out.splitlines() if f.strip()]
+    now = time.time() + 1
+    for f in files:
+        p = os.path.join(repo, f)
+        if os.path.exists(p):
+            os.utime(p, (now, now))
+    return files
+
+
 def _stash_evidence():
     """Checks rewrite evidence/<id>.json on every run; runs against a deliberately broken /repo must not
     leave their evidence behind (committed evidence has to come from the unchanged tree)."""
@@ -60,7 +74,9 @@ def _check(ids):
         st = subprocess.run(["git", "-C", REPO, "status", "--porcelain", "--untracked-files=no"], capture_output=True, text=True).stdout
         if st.strip():
             sys.exit("/repo not clean")
-        if subprocess.run(["git", "-C", REPO, "apply", os.path.join(EQ, d, "patch.diff")]).returncode != 0:
+        applied = subprocess.run(["git", "-C", REPO, "apply", os.path.join(EQ, d, "patch.diff")]).returncode
+        changed = _touch_changed(REPO)
+        if applied != 0:
             meta["checks"]["apply"] = "patch does not apply"
             json.dump(meta, open(mp, "w"), indent=1)
             print(d, "patch does not apply")
@@ -76,6 +92,7 @@ def _check(ids):
                 print("%-8s %-4s %-12s %s" % (d, prop, verdict, (sig or inc)[:120]), flush=True)
         finally:
             subprocess.run(["git", "-C", REPO, "checkout", "--", "."], check=True)
+            _touch_changed(REPO, changed)
         json.dump(meta, open(mp, "w"), indent=1)
 
 
